@@ -159,6 +159,8 @@ class IdHook:
         self.nested_add = False
         self.kinds = set()
         self.turbo_parts = set()   # slide parts on which some collection has turbo mode on
+        self.turbo_coll = {}       # part id -> the slide-level collection whose turbo mode was last switched on
+        self.foreign_since_turbo = {}  # part id -> a shape was added through another collection since then
 
     def before_op(self, it, op):
         prs = it.prs
@@ -190,7 +192,27 @@ class IdHook:
         if name == "turbo" and outcome == "ok":
             sl = it.slide(op[1])
             if sl is not None:
-                (self.turbo_parts.add if op[3] else self.turbo_parts.discard)(id(sl.part))
+                # only the slide's own collection (one object per slide) keeps its mode; the collection of a group is
+                # a new object on every access, so a mode set on it is gone with it
+                try:
+                    _sl, coll, depth = it._container(op[1], op[2])
+                except Exception:
+                    coll, depth = None, 1
+                pid = id(sl.part)
+                if depth == 0 and coll is not None:
+                    if op[3]:
+                        # assigning True (again) makes the collection read the largest id afresh: from here on its
+                        # cache is good until a shape is added through another collection of that slide
+                        self.turbo_parts.add(pid)
+                        self.turbo_coll[pid] = coll
+                        self.foreign_since_turbo[pid] = False
+                    else:
+                        self.turbo_parts.discard(pid)
+                        self.turbo_coll.pop(pid, None)
+        elif added is not None and info.get("slide") is not None:
+            pid = id(info["slide"].part)
+            if pid in self.turbo_coll and info.get("container") is not self.turbo_coll[pid]:
+                self.foreign_since_turbo[pid] = True
         # ---- shape ids
         for part in slide_like_parts(prs):
             pre = self.pre.get(id(part))
@@ -217,7 +239,8 @@ class IdHook:
                 if i in old_numeric:
                     # turbo mode caches the max id per collection object; ids assigned through another
                     # collection of the same slide (a group's .shapes) are invisible to it
-                    why = "turbo-cache-stale" if id(part) in self.turbo_parts else _kind(info, name)
+                    stale_ok = id(part) in self.turbo_parts and self.foreign_since_turbo.get(id(part), True)
+                    why = "turbo-cache-stale" if stale_ok else _kind(info, name)
                     raise Violation("C06:new-shape-id-collides:%s" % why,
                                     "%s on %s assigned id %s, already used in that part (ids before: %s)"
                                     % (op, part.partname, i, sorted(old_numeric, key=int)[-8:]))
